@@ -181,7 +181,7 @@ def read(data: str | bytes) -> Doc:
             doc.anom.append(("text_outside_group", ch[:10]))
             return
         t = start_container()
-        t.events.append(("t", ch))
+        t.events.append(("t", ch, (bool(st["c"].get("super")), bool(st["c"].get("sub")))))
         if t.runs and t.runs[-1][1] == st["c"]:
             t.runs[-1] = (t.runs[-1][0] + ch, t.runs[-1][1])
         else:
